@@ -60,6 +60,8 @@ impl Val for W {
 /// Serialize with ciborium and deserialize again; `None` for prefix types without serde support.
 trait SerdeRt: Prefix + Sized {
     fn roundtrip<T: Val>(m: &PrefixMap<Self, T>) -> Option<PrefixMap<Self, T>>;
+    /// `Some(equal)` after serialising and deserialising a set; `None` without serde support.
+    fn roundtrip_set(s: &PrefixSet<Self>) -> Option<bool>;
 }
 
 macro_rules! serde_yes {
@@ -71,6 +73,12 @@ macro_rules! serde_yes {
                 let back: PrefixMap<Self, T> = ciborium::de::from_reader(&buf[..]).unwrap();
                 Some(back)
             }
+            fn roundtrip_set(s: &PrefixSet<Self>) -> Option<bool> {
+                let mut buf: Vec<u8> = Vec::new();
+                ciborium::ser::into_writer(s, &mut buf).unwrap();
+                let back: PrefixSet<Self> = ciborium::de::from_reader(&buf[..]).unwrap();
+                Some(back == *s && back.len() == s.len() && back.iter().eq(s.iter()))
+            }
         }
     )*};
 }
@@ -79,6 +87,9 @@ macro_rules! serde_no {
     ($($t:ty),* $(,)?) => {$(
         impl SerdeRt for $t {
             fn roundtrip<T: Val>(_m: &PrefixMap<Self, T>) -> Option<PrefixMap<Self, T>> {
+                None
+            }
+            fn roundtrip_set(_s: &PrefixSet<Self>) -> Option<bool> {
                 None
             }
         }
@@ -893,6 +904,23 @@ fn exec<P: PT>(st: &mut State<P>, op: &Op<P>, o: &mut String, cap: usize) {
             let it = coll(st.t.clone().into_iter(), cap);
             key(o, "into=");
             w_list(o, it, |o, p| w_p(o, &p));
+            // the other ways to traverse / rebuild a set must agree with `iter()` (self-consistency:
+            // a disagreement panics, which the comparison with the model then reports)
+            let base: Vec<P> = coll(st.t.iter(), cap).into_iter().cloned().collect();
+            let by_ref: Vec<P> = coll((&st.t).into_iter(), cap).into_iter().cloned().collect();
+            let by_view: Vec<P> = coll(st.t.view().keys(), cap).into_iter().cloned().collect();
+            let rebuilt: PrefixSet<P> = base.iter().cloned().collect();
+            let by_children: Vec<P> = coll(st.t.children(&P::zero()), cap).into_iter().cloned().collect();
+            if by_ref != base || by_view != base || by_children != base || rebuilt != st.t || st.t != rebuilt
+                || rebuilt.len() != base.len() || st.t.clone() != st.t
+            {
+                panic!("set traversals disagree");
+            }
+            if let Some(ok) = P::roundtrip_set(&st.t) {
+                if !ok {
+                    panic!("set serde round trip differs");
+                }
+            }
         }
         Op::SQ(p) => {
             let t = &st.t;
@@ -927,6 +955,34 @@ fn exec<P: PT>(st: &mut State<P>, op: &Op<P>, o: &mut String, cap: usize) {
             sep(o);
             o.push_str(&t2);
             let items = coll(v1.union(v2), cap);
+            // the accessor methods of `UnionItem` must agree with its fields
+            for it in &items {
+                let (p, l, r, b) = match *it {
+                    UnionItem::Left { prefix, left, right } => (prefix, Some((prefix, left)), right, None),
+                    UnionItem::Right { prefix, left, right } => (prefix, left, Some((prefix, right)), None),
+                    UnionItem::Both { prefix, left, right } => {
+                        (prefix, Some((prefix, left)), Some((prefix, right)), Some((prefix, left, right)))
+                    }
+                };
+                let same_l = match (it.left(), l) {
+                    (Some((a, x)), Some((b, y))) => std::ptr::eq(a, b) && std::ptr::eq(x, y),
+                    (None, None) => true,
+                    _ => false,
+                };
+                let same_r = match (it.right(), r) {
+                    (Some((a, x)), Some((b, y))) => std::ptr::eq(a, b) && std::ptr::eq(x, y),
+                    (None, None) => true,
+                    _ => false,
+                };
+                let same_b = match (it.both(), b) {
+                    (Some((a, x, u)), Some((b, y, v))) => std::ptr::eq(a, b) && std::ptr::eq(x, y) && std::ptr::eq(u, v),
+                    (None, None) => true,
+                    _ => false,
+                };
+                if !(std::ptr::eq(it.prefix(), p) && same_l && same_r && same_b) {
+                    panic!("UnionItem accessor disagrees with its fields");
+                }
+            }
             sep(o);
             w_list(o, items, |o, it| match it {
                 UnionItem::Left { prefix, right, .. } => {
@@ -1850,6 +1906,24 @@ fn iters<P: PT, T: Val>(m: &mut PrefixMap<P, T>, o: &mut String, cap: usize) {
     key(o, "clone=");
     w_b(o, same);
 
+    // further flavours, checked for self-consistency with `iter()` (a disagreement panics)
+    {
+        let base: Vec<(P, i64)> = coll(m.iter(), cap).into_iter().map(|(p, v)| (p.clone(), v.get())).collect();
+        let v = m.view();
+        let by_view: Vec<(P, i64)> = coll(v.iter(), cap).into_iter().map(|(p, v)| (p.clone(), v.get())).collect();
+        let by_view_into: Vec<(P, i64)> = coll(v.clone().into_iter(), cap).into_iter().map(|(p, v)| (p.clone(), v.get())).collect();
+        let by_children: Vec<(P, i64)> = coll(m.children(&P::zero()), cap).into_iter().map(|(p, v)| (p.clone(), v.get())).collect();
+        let by_mut: Vec<(P, i64)> = coll(m.iter_mut(), cap).into_iter().map(|(p, v)| (p.clone(), v.get())).collect();
+        let by_vals_mut: Vec<i64> = coll(m.values_mut(), cap).into_iter().map(|v| v.get()).collect();
+        let by_view_mut: Vec<(P, i64)> = coll(m.view_mut().into_iter(), cap).into_iter().map(|(p, v)| (p.clone(), v.get())).collect();
+        let n_default = prefix_trie::map::Iter::<P, T>::default().count() + prefix_trie::map::IterMut::<P, T>::default().count();
+        if by_view != base || by_view_into != base || by_children != base || by_mut != base || by_view_mut != base
+            || by_vals_mut != base.iter().map(|x| x.1).collect::<Vec<_>>() || n_default != 0
+            || base.len() != m.iter().count()
+        {
+            panic!("iterator flavours disagree");
+        }
+    }
     let f1 = fused3(m.iter(), cap);
     let f2 = fused3(m.keys(), cap);
     let f3 = fused3(m.values(), cap);
@@ -2203,6 +2277,7 @@ fn main() {
         let id = head.get(1).copied().unwrap_or("");
         let ty = head.get(2).copied().unwrap_or("");
         writeln!(w, "S {}", id).unwrap();
+        w.flush().unwrap();
         let mut j = i + 1;
         while j < lines.len() && !is_s_line(lines[j]) {
             j += 1;
@@ -2214,6 +2289,9 @@ fn main() {
                 w.write_all(b"?\n").unwrap();
             }
         }
+        // one flush per script: if a later script hangs or aborts the process, the output of
+        // the scripts before it is not lost and the orchestrator can tell which one it was
+        w.flush().unwrap();
         i = j;
     }
     w.flush().unwrap();
